@@ -217,9 +217,11 @@ import sys
 sys.path.insert(0, %r); sys.path.insert(0, %r)
 from strengths import *
 from vt.glue import real_engine
-def run(opt, nsp, ncell, seed, base):
+def run(opt, nsp, ncell, seed, base, graph=False):
     net = RDNetwork(species=[Species(chr(65 + k), D=1) for k in range(nsp)], reactions=[Reaction("A -> B", kf=1, kr=1)] * (1 if nsp > 1 else 0) + [Reaction("B -> A", kf=0.5)] * (nsp - 1))
-    s = RDSystem(net, RDGridSpace(w=ncell, h=1, d=1, cell_vol=1), state=[base + 13 * k for k in range(nsp * ncell)])
+    from strengths.rdgraphspace import RDGraphSpaceNode as N_, RDGraphSpaceEdge as E_
+    space = RDGraphSpace(nodes=[N_(1.0, 0) for _ in range(ncell)], edges=[E_(k, k + 1) for k in range(ncell - 1)]) if graph else RDGridSpace(w=ncell, h=1, d=1, cell_vol=1)
+    s = RDSystem(net, space, state=[base + 13 * k for k in range(nsp * ncell)])
     e = real_engine(opt)
     e.setup(RDScript(s, [0, 0.01], rng_seed=seed, time_step=0.005))
     while e.iterate():
@@ -231,9 +233,10 @@ if hist == "1":
     run("tauleap", 3, 3, 5, 140.0); run("euler", 2, 2, 1, 10.0)
 if hist == "2":
     run("gillespie", 2, 5, 9, 300.0); run("euler", 3, 1, 1, 10.0); run("tauleap", 2, 3, 4, 500.0)
-out = []
+out = [run("euler", 2, 3, 78, 20.25, graph=True)]       # measured FIRST: whatever the history left behind acts on it (deterministic engine, graph space)
 for opt in ("tauleap", "gillespie", "euler"):
     out.append(run(opt, 3, 2, 77, 120.0))
+    out.append(run(opt, 2, 3, 78, 20.25, graph=True))        # graph space, non-integer amounts, default initial-state processing
 print(repr(out))
 ''' % (SRC, VERIF)
     path = os.path.join(scratch(), "history_dep.py")
